@@ -103,9 +103,28 @@ pub trait AutoMerge: RemoteSyncHandler {
                             local,
                             remote,
                         } => {
-                            let outcome = self
+                            #[allow(unused_mut)]
+                            let mut outcome = self
                                 .auto_merge(options, conflict, local, remote)
                                 .await?;
+
+                            // Files that arrived with the merged
+                            // events must be downloaded
+                            #[cfg(feature = "files")]
+                            {
+                                use sos_account::Account;
+                                let paths = {
+                                    let account = self.account();
+                                    let account = account.lock().await;
+                                    account.paths()
+                                };
+                                self.queue_file_downloads(
+                                    &paths,
+                                    &mut outcome,
+                                )
+                                .await?;
+                            }
+
                             Ok(Some(outcome))
                         }
                         _ => Err(conflict.into()),
@@ -122,6 +141,7 @@ pub trait AutoMerge: RemoteSyncHandler {
         &self,
         log_id: &'static str,
         log_type: EventLogType,
+        outcome: &mut MergeOutcome,
     ) -> Result<bool, <Self as RemoteSyncHandler>::Error>
     where
         T: Default + Send + Sync,
@@ -139,6 +159,7 @@ pub trait AutoMerge: RemoteSyncHandler {
                     log_type,
                     ancestor_commit,
                     proof,
+                    outcome,
                 )
                 .await?;
                 Ok(false)
@@ -164,6 +185,7 @@ pub trait AutoMerge: RemoteSyncHandler {
             .auto_merge_scan::<WriteEvent>(
                 "auto_merge::identity",
                 EventLogType::Identity,
+                outcome,
             )
             .await?;
         if handle_conflict {
@@ -182,6 +204,7 @@ pub trait AutoMerge: RemoteSyncHandler {
             .auto_merge_scan::<AccountEvent>(
                 "auto_merge::account",
                 EventLogType::Account,
+                outcome,
             )
             .await?;
         if handle_conflict {
@@ -200,6 +223,7 @@ pub trait AutoMerge: RemoteSyncHandler {
             .auto_merge_scan::<DeviceEvent>(
                 "auto_merge::device",
                 EventLogType::Device,
+                outcome,
             )
             .await?;
         if handle_conflict {
@@ -219,6 +243,7 @@ pub trait AutoMerge: RemoteSyncHandler {
             .auto_merge_scan::<FileEvent>(
                 "auto_merge::files",
                 EventLogType::Files,
+                outcome,
             )
             .await?;
         if handle_conflict {
@@ -453,6 +478,7 @@ pub trait AutoMerge: RemoteSyncHandler {
                     EventLogType::Folder(*folder_id),
                     ancestor_commit,
                     proof,
+                    outcome,
                 )
                 .await?;
                 Ok(false)
@@ -506,6 +532,7 @@ pub trait AutoMerge: RemoteSyncHandler {
         log_type: EventLogType,
         commit: CommitHash,
         proof: CommitProof,
+        outcome: &mut MergeOutcome,
     ) -> Result<(), <Self as RemoteSyncHandler>::Error>
     where
         T: Default + Send + Sync,
@@ -561,7 +588,7 @@ pub trait AutoMerge: RemoteSyncHandler {
         match result {
             AutoMergeStatus::RewindLocal(events) => {
                 let local_patch = self
-                    .rewind_local(&log_type, commit, proof, events)
+                    .rewind_local(&log_type, commit, proof, events, outcome)
                     .await?;
 
                 let success = matches!(local_patch, CheckedPatch::Success(_));
@@ -572,7 +599,9 @@ pub trait AutoMerge: RemoteSyncHandler {
             }
             AutoMergeStatus::PushRemote(events) => {
                 let (remote_patch, local_patch) = self
-                    .push_remote::<T>(&log_type, commit, proof, events)
+                    .push_remote::<T>(
+                        &log_type, commit, proof, events, outcome,
+                    )
                     .await?;
 
                 let success =
@@ -652,6 +681,7 @@ pub trait AutoMerge: RemoteSyncHandler {
         commit: CommitHash,
         proof: CommitProof,
         events: Vec<EventRecord>,
+        outcome: &mut MergeOutcome,
     ) -> Result<CheckedPatch, <Self as RemoteSyncHandler>::Error> {
         tracing::debug!(
           log_type = ?log_type,
@@ -662,8 +692,6 @@ pub trait AutoMerge: RemoteSyncHandler {
 
         // Rewind the event log to the target commit
         let records = self.rewind_event_log(log_type, &commit).await?;
-
-        let mut outcome = MergeOutcome::default();
 
         // Merge the events after rewinding
         let checked_patch = {
@@ -677,7 +705,7 @@ pub trait AutoMerge: RemoteSyncHandler {
                         checkpoint: proof,
                         patch,
                     };
-                    account.merge_identity(diff, &mut outcome).await?
+                    account.merge_identity(diff, outcome).await?
                 }
                 EventLogType::Account => {
                     let patch = Patch::<AccountEvent>::new(events);
@@ -686,7 +714,7 @@ pub trait AutoMerge: RemoteSyncHandler {
                         checkpoint: proof,
                         patch,
                     };
-                    account.merge_account(diff, &mut outcome).await?.0
+                    account.merge_account(diff, outcome).await?.0
                 }
                 EventLogType::Device => {
                     let patch = Patch::<DeviceEvent>::new(events);
@@ -695,7 +723,7 @@ pub trait AutoMerge: RemoteSyncHandler {
                         checkpoint: proof,
                         patch,
                     };
-                    account.merge_device(diff, &mut outcome).await?
+                    account.merge_device(diff, outcome).await?
                 }
                 #[cfg(feature = "files")]
                 EventLogType::Files => {
@@ -705,7 +733,7 @@ pub trait AutoMerge: RemoteSyncHandler {
                         checkpoint: proof,
                         patch,
                     };
-                    account.merge_files(diff, &mut outcome).await?
+                    account.merge_files(diff, outcome).await?
                 }
                 EventLogType::Folder(id) => {
                     let patch = Patch::<WriteEvent>::new(events);
@@ -715,7 +743,7 @@ pub trait AutoMerge: RemoteSyncHandler {
                         patch,
                     };
 
-                    account.merge_folder(id, diff, &mut outcome).await?.0
+                    account.merge_folder(id, diff, outcome).await?.0
                 }
             }
         };
@@ -780,6 +808,7 @@ pub trait AutoMerge: RemoteSyncHandler {
         commit: CommitHash,
         proof: CommitProof,
         events: Vec<EventRecord>,
+        outcome: &mut MergeOutcome,
     ) -> Result<
         (CheckedPatch, Option<CheckedPatch>),
         <Self as RemoteSyncHandler>::Error,
@@ -805,7 +834,7 @@ pub trait AutoMerge: RemoteSyncHandler {
         let local_patch = match &remote_patch {
             CheckedPatch::Success(_) => {
                 let local_patch = self
-                    .rewind_local(log_type, commit, proof, events)
+                    .rewind_local(log_type, commit, proof, events, outcome)
                     .await?;
                 Some(local_patch)
             }
